@@ -51,6 +51,7 @@ class Facade:
         self.head = []
         self._saved = None
         self.sut_seed_calls = 0
+        self.samples_served = []  # (site, population size, result) of every random.sample call
 
     # ------------------------------------------------------------ plumbing
     def reseed(self, s, which=("py", "np")):
@@ -148,9 +149,11 @@ class Facade:
             else:
                 v = pop[:k]
             self._prev[key] = list(v)
+            self.samples_served.append((site, len(pop), list(v)))
             self._log(site, "random.sample", v, True)
             return v
         v = self.py.sample(pop, k)
+        self.samples_served.append((site, len(pop), list(v)))
         self._prev[("sample", site, len(pop), k)] = list(v)
         self._log(site, "random.sample", v, False)
         return v
